@@ -183,6 +183,49 @@ fn wake_parked(n_wakers: usize, by_ref: bool, queue: usize, rearm: bool) {
     drop(handle);
 }
 
+/// One thread publishes a value and wakes, `rounds` times in a row, while the runtime thread ticks
+/// and parks. The task reads the published value (a scheduling point INSIDE its poll) and finishes
+/// only when it has seen the last one, so a wake that lands while the task is being polled -- also
+/// while it is being polled because of an earlier cross-thread wake -- must cause another poll.
+fn wake_during_poll(rounds: usize, by_ref: bool, queue: usize) {
+    let parker = Parker::new();
+    let exe = executor(&parker, queue);
+    let polls = Rc::new(Cell::new(0usize));
+    let slot: Rc<RefCell<Option<Waker>>> = Rc::new(RefCell::new(None));
+    let stage = Arc::new(loom::sync::atomic::AtomicUsize::new(0));
+    let done = Rc::new(Cell::new(false));
+    let handle = exe.spawn({
+        let (polls, slot, stage, done) = (polls.clone(), slot.clone(), stage.clone(), done.clone());
+        poll_fn(move |cx| {
+            polls.set(polls.get() + 1);
+            *slot.borrow_mut() = Some(cx.waker().clone());
+            if stage.load(SeqCst) >= rounds {
+                done.set(true);
+                Poll::Ready(())
+            } else {
+                Poll::Pending
+            }
+        })
+    });
+    exe.tick();
+    assert_eq!(polls.get(), 1, "ORACLE[first-poll] spawned task not polled by the first tick");
+    let w = slot.borrow().clone().unwrap();
+    let t = {
+        let stage = stage.clone();
+        thread::spawn(move || {
+            for r in 1..=rounds {
+                stage.store(r, SeqCst);
+                if by_ref || r < rounds { w.wake_by_ref() } else { w.clone().wake() }
+            }
+        })
+    };
+    // a wake that is dropped leaves the task Pending for ever: the runtime parks = loom deadlock
+    run_until(&exe, &parker, || done.get());
+    t.join().unwrap();
+    outcome(polls.get() as u32);
+    drop(handle);
+}
+
 /// cross-thread queue of size 1 and two tasks woken from two threads: the second push finds the
 /// queue full and must wait (not discard)
 fn full_queue() {
@@ -447,6 +490,9 @@ pub fn scenarios() -> Vec<Scenario> {
         Scenario { name: "ex_wake2_val_q1", property: "C03", about: "two threads wake the same task, cross-thread queue of size 1", run: || wake_parked(2, false, 1, false), thorough_only: false, heavy: false },
         Scenario { name: "ex_wake1_rearm_q1", property: "C03", about: "wake, task re-arms, a second wake from another thread must also be delivered", run: || wake_parked(1, false, 1, true), thorough_only: false, heavy: false },
         Scenario { name: "ex_wake2_rearm_q2", property: "C03", about: "two concurrent wakes, re-arm, third wake", run: || wake_parked(2, false, 2, true), thorough_only: true, heavy: false },
+        Scenario { name: "ex_wake_during_poll2_q2", property: "C03", about: "one thread publishes+wakes twice in a row; the second wake may land while the task is polled because of the first", run: || wake_during_poll(2, true, 2), thorough_only: false, heavy: false },
+        Scenario { name: "ex_wake_during_poll2_q1", property: "C03", about: "same, cross-thread queue of size 1, last wake by value", run: || wake_during_poll(2, false, 1), thorough_only: false, heavy: false },
+        Scenario { name: "ex_wake_during_poll3_q1", property: "C03", about: "three publish+wake rounds, queue of size 1", run: || wake_during_poll(3, true, 1), thorough_only: true, heavy: false },
         Scenario { name: "ex_full_queue", property: "C03", about: "two tasks woken from two threads with a cross-thread queue of size 1 (full-queue branch)", run: full_queue, thorough_only: false, heavy: false },
         Scenario { name: "jh_join_remote_y0", property: "C04", about: "handle awaited on another thread while the task completes at its first poll", run: || join_remote(0, false), thorough_only: false, heavy: false },
         Scenario { name: "jh_join_remote_y1", property: "C04", about: "handle awaited on another thread, task yields once", run: || join_remote(1, false), thorough_only: false, heavy: false },
